@@ -187,6 +187,13 @@ def run_script(nsends, script, waits=None, late=None, cancels=None, rng=None, wa
                 d.frames([("ACK", 0, 0, (frm + 1) % 8), ("NAK", 0, 0, frm)])
             elif r == "nakack":
                 d.frames([("NAK", 0, 0, frm), ("ACK", 0, 0, (frm + 1) % 8)])
+            elif r == "ackack":           # the acknowledgement twice in one read: the second meets a settled future
+                d.frames([("ACK", 0, 0, (frm + 1) % 8), ("ACK", 0, 0, (frm + 1) % 8)])
+            elif r == "ackdata":          # ACK, then a DATA frame repeating the acknowledgement number, in one read
+                d.frames([("ACK", 0, 0, (frm + 1) % 8), ("DATA", d.proto._rx_seq, 0, (frm + 1) % 8, b"\x03")])
+            elif r == "datadata":         # two DATA frames with the same acknowledgement number in one read
+                rx = d.proto._rx_seq
+                d.frames([("DATA", rx, 0, (frm + 1) % 8, b"\x04"), ("DATA", (rx + 1) % 8, 0, (frm + 1) % 8, b"\x05")])
             elif r == "errrst":           # ERROR immediately followed by RSTACK in one read
                 d.frames([("ERROR", 2, 0x51), ("RSTACK", 2, 2)])
             elif r == "r_ack":            # ... racing the acknowledgement timeout (same loop iteration)
@@ -360,7 +367,12 @@ class Check(PropertyCheck):
         for code in (range(256) if tier != "quick" else [0, 1, 2, 3, 6, 9, 0x0B, 0x51, 0x52, 0x53, 0x80, 0xFF]):
             cases.append({"n": 2, "script": [f"error:{code}"]})
             cases.append({"n": 1, "script": ["silence", "nak", f"error:{code}"], "tail": ["submit", "rstack", "submit", "ack"]})
-        allr = REACTIONS + ["dataack", "acknak", "nakack", "errrst", "ack", "ack", "silence", "nak", "error:0", "error:255"] + RACES
+        for r in ("ackack", "ackdata", "datadata"):
+            for n in (1, 2, 3):
+                cases.append({"n": n, "script": [r] * n})
+                cases.append({"n": n, "script": ["nak", r, "silence", r]})
+        allr = REACTIONS + ["dataack", "acknak", "nakack", "errrst", "ack", "ack", "silence", "nak", "error:0", "error:255",
+                            "ackack", "ackdata", "datadata"] + RACES
         for _ in range(300 if tier == "quick" else 5000):
             n = rng.randrange(1, 7)
             ln = rng.randrange(2, 16)
